@@ -218,16 +218,23 @@ def golden_cases(res, base, r):
     res.count('golden_fault_cases')
     # (3) match string absent from the golden output: status 1, nothing run
     rules = realrun.simple_spec('has:a')
-    for opt, entry, itext in [(o, e, t) for o in ('--match-out',
-                                                  '--match-err')
-                              for e in ('bin', 'module')
-                              for t in (text, '', ' \n\n')
-                              if t == text or e == 'bin']:
+    cases = [(o, e, t, []) for o in ('--match-out', '--match-err')
+             for e in ('bin', 'module') for t in (text, '', ' \n\n')
+             if t == text or e == 'bin']
+    # ... whatever else is on the command line (diagnostic options wrap the
+    # whole run in context managers and handlers of their own)
+    for k, extra in enumerate([['--profile'], ['--dump-diffs'], ['-v'],
+                               ['-q'], ['--check-loops'], ['-j', '3'],
+                               ['--strategy', 'ddmin', '--profile'],
+                               ['--pretty-print', '--memout', '2000']]):
+        cases.append((('--match-out', '--match-err')[k % 2],
+                      ('bin', 'module')[k // 2 % 2], text, extra))
+    for n, (opt, entry, itext, extra) in enumerate(cases):
         if True:
             run = realrun.run_ddsmt(
-                os.path.join(base, f'g3{opt}{entry}{len(itext)}'),
+                os.path.join(base, f'g3{opt}{entry}{len(itext)}_{n}'),
                 itext, rules, entry=entry,
-                opts=[opt, 'NOT-THERE', '--timeout', '5'])
+                opts=[opt, 'NOT-THERE', '--timeout', '5'] + extra)
             res.count('evaluations')
             res.count('match_string_cases')
             if run.rc != 1 or len(run.cmdlog) != 1 or \
@@ -235,10 +242,11 @@ def golden_cases(res, base, r):
                 res.violation(
                     'golden-match-string-not-enforced',
                     f'{opt} absent from the golden output (input of '
-                    f'{len(itext)} bytes): exit status '
+                    f'{len(itext)} bytes{", with " + " ".join(extra) if extra else ""}): exit status '
                     f'{run.rc}, {len(run.cmdlog) - 1} candidates tested', {
                         'opt': opt,
                         'entry': entry,
+                        'other_options': extra,
                         'stderr': run.stderr[-400:]
                     })
 
